@@ -8,7 +8,15 @@ from harness import oracle as orc
 from harness import kreal
 from harness.c05 import make_kernel
 
-GHEADER = kreal.RHEADER.replace('Require Import XV.Real.Kernels.', 'Require Import XV.Real.Kernels XV.Real.Grads.') + '''
+GHEADER = kreal.RHEADER.replace('Require Import XV.Real.Kernels.', 'Require Import XV.Real.Kernels XV.Real.Grads XV.Real.GradsP XV.Real.GradOps XV.Real.GradAuto.') + '''
+(* the model of what jacrev + the generic wrapper return for the product / Lpq / sum-power kernels (Real/GradAuto.v), on concrete numerals *)
+Ltac auto_unfold :=
+  cbv [grad_product grad_lpq grad_sum_power gauto dlincomb dprod_m dlpq_m dprod dlpq dsp wsum basis seq map transform xmat
+       vmulR vsubR vaddR vscaleR vdotR nth length repeat sum_abs_pow normp rsumR fold_right pred].
+Ltac sgn_simpl := repeat match goal with |- context [sgn ?a] => first [rewrite (sgn_pos a) by interval | rewrite (sgn_neg a) by interval] end.
+Ltac mask_simpl := repeat match goal with |- context [masked ?e ?D ?v] => rewrite (masked_open e D v) by interval end.
+Ltac auto_simpl := auto_unfold; pw_abs; pw_rest; mask_simpl; unfold dabs_pow; sgn_simpl;
+  rewrite ?Rmult_0_r, ?Rmult_0_l, ?Rplus_0_r, ?Rplus_0_l, ?Rmult_1_r, ?Rmult_1_l.
 Ltac grad_simpl :=
   cbv [grad_l2 grad_light gsum gsum_light transform xmat cdist2 light_sq vsubR vaddR vmulR vscaleR vdotR sumsq rsumR map fold_right repeat length nth];
   repeat (rewrite Rmax_right by interval);
@@ -117,9 +125,26 @@ def run(ck):
             lid = len(lemmas)
             lemmas.append((lid, f'Lemma g_{lid} : Rabs ({term} - {coq_R(float(G[l, j, dc]))}) <= {coq_R(tol)}.\nProof. grad_simpl. interval with (i_prec 50). Qed.'))
             lmeta[lid] = dict(desc, l=l, j=j, dc=dc)
+        # autodiff kernels: the entry vs the Coq model of what jacrev + the wrapper return (GradAuto.grad_product / grad_lpq / grad_sum_power, proved to be
+        # the derivative of the documented predictor); generic position, identity / diagonal transforms (a full matrix makes the unshared term too large for `interval`)
+        if kn in ('l1', 'lpq', 'sum_power') and not coincide and d <= 2 and tk != 'full' and nx <= 3 \
+                and not any(abs(X[a][k] - Z[j2][k]) < 1e-6 for a in range(nx) for j2 in range(nz) for k in range(d)):
+            l, j, dc = f - 1, nz - 1, d - 1
+            tm = kreal.tmat(mat)
+            if kn == 'l1':
+                term = f'grad_product {tm} {coq_R(L)} {coq_R(q)} {coq_R(kobj.eps)} {kreal.rmat(X)} {kreal.rvec(coefs[l])} {kreal.rvec(Z[j])}'
+            elif kn == 'lpq':
+                term = f'grad_lpq {tm} {coq_R(L)} {coq_R(p)} {coq_R(q)} {coq_R(kobj.eps)} {kreal.rmat(X)} {kreal.rvec(coefs[l])} {kreal.rvec(Z[j])}'
+            else:
+                term = f'grad_sum_power {tm} {coq_R(L)} {coq_R(q)} {coq_R(cmix)} {int(power)}%nat {kreal.rmat(X)} {kreal.rvec(coefs[l])} {kreal.rvec(Z[j])}'
+            tol = 1e-8 * (float(np.abs(coefs[l]).sum()) / L + 1)
+            lid = len(lemmas)
+            lemmas.append((lid, f'Lemma g_{lid} : Rabs (nth {dc} ({term}) 0 - {coq_R(float(G[l, j, dc]))}) <= {coq_R(tol)}.\nProof. auto_simpl. interval with (i_prec 60). Qed.'))
+            lmeta[lid] = dict(desc, l=l, j=j, dc=dc, model='GradAuto')
+            ck.count('autodiff entry certified against the Coq model')
     res = ck.run_lemma_files('grad', GHEADER, lemmas, shard=3, timeout=900)
     bad = [lmeta[k] for k, v in res.items() if not v]
-    ck.obligation(f'correspondence: {len(lemmas)} gradient entries of the closed-form L2 kernels within tolerance of the Coq op-sequence model (interval-certified)',
+    ck.obligation(f'correspondence: {len(lemmas)} gradient entries (closed-form L2 kernels: op-sequence model; product / Lpq / sum-power: model of what jacrev returns) within tolerance of the Coq models (interval-certified)',
                   'correspondence', not bad, f'first failures: {bad[:3]}')
 
     # ---------- model level: Jacobian of the model's own prediction ----------
